@@ -2,8 +2,12 @@
 package c10
 
 import (
+	"os"
+	"path/filepath"
+
 	"encoding/json"
 	"fmt"
+	"github.com/sdcio/yang-parser/compile"
 	"regexp"
 	"strconv"
 	"strings"
@@ -30,14 +34,16 @@ func init() {
 }
 
 type st struct {
-	kw   string
-	arg  string // decoded value; "" with noArg = no argument
+	kw    string
+	arg   string // decoded value; "" with noArg = no argument
 	noArg bool
-	kids []*st
-	raw  string // when set: the argument is written as "raw" (double-quoted, multi-line); its value depends on the quote column
+	kids  []*st
+	raw   string // when set: the argument is written as "raw" (double-quoted, multi-line); its value depends on the quote column
 }
 
-func leaf(name string) *st { return &st{kw: "leaf", arg: name, kids: []*st{{kw: "type", arg: "string"}}} }
+func leaf(name string) *st {
+	return &st{kw: "leaf", arg: name, kids: []*st{{kw: "type", arg: "string"}}}
+}
 
 // menu of body statements; i makes names unique
 func menu(i int) []*st {
@@ -63,12 +69,12 @@ func menu(i int) []*st {
 const exactIndent, exactIndentTab, rawCopy = "\x00EXACT\x00", "\x00EXACTTAB\x00", "\x00RAWCOPY\x00"
 
 type token struct {
-	text string
-	node int // index into expectation when this token is a keyword, else -1
+	text      string
+	node      int    // index into expectation when this token is a keyword, else -1
 	sepBefore string // default separator before this token
-	glue bool // may be written without separator before it
-	rawOf int // >= 0: this token is the multi-line double-quoted argument of that node
-	raw   string
+	glue      bool   // may be written without separator before it
+	rawOf     int    // >= 0: this token is the multi-line double-quoted argument of that node
+	raw       string
 }
 
 type expNode struct {
@@ -204,14 +210,14 @@ func render(toks []token, seps []string, exp []expNode) string {
 	return b.String()
 }
 
-var locRe = regexp.MustCompile(`^in\.yang:(\d+):(\d+)`)
+var locRe = regexp.MustCompile(`^(?:/\S*/)?in\.yang:(\d+):(\d+)`)
 
 type rec struct {
 	Text string    `json:"text"`
 	Exp  []expJSON `json:"expect"`
 }
 type expJSON struct {
-	Kw, Arg     string
+	Kw, Arg          string
 	Depth, Line, Col int
 }
 
@@ -228,7 +234,11 @@ func check(text string, exp []expNode) []engine.Violation {
 	var p any
 	func() {
 		defer func() { p = recover() }()
-		tree, err = parse.Parse("in.yang", text, nil)
+		if parseViaFile {
+			tree, err = treeViaFile(text)
+		} else {
+			tree, err = parse.Parse("in.yang", text, nil)
+		}
 	}()
 	if p != nil {
 		return mk("panic", fmt.Sprint(p))
@@ -268,6 +278,30 @@ func check(text string, exp []expNode) []engine.Violation {
 		}
 	}
 	return nil
+}
+
+// parseViaFile: check() reads the text back from a file through compile.ParseModules (the entry point
+// below ParseYang, ParseModuleDir and CompileDir*) instead of calling parse.Parse on the string.
+var parseViaFile bool
+
+func treeViaFile(text string) (*parse.Tree, error) {
+	d, err := os.MkdirTemp("", "verif-c10-")
+	if err != nil {
+		return nil, err
+	}
+	defer os.RemoveAll(d)
+	f := filepath.Join(d, "in.yang")
+	if err := os.WriteFile(f, []byte(text), 0o644); err != nil {
+		return nil, err
+	}
+	trees, err := compile.ParseModules(nil, f)
+	if err != nil {
+		return nil, err
+	}
+	for _, t := range trees {
+		return t, nil
+	}
+	return nil, fmt.Errorf("no tree")
 }
 
 var trivia = []string{"", " ", "\t", "\n", "\r\n", " /*c*/ ", " //c\n", "\n\n  ",
@@ -359,6 +393,18 @@ func run(c *engine.Ctx) {
 		}
 		e0 := append([]expNode{}, exp...)
 		do(fmt.Sprintf("base:%d", ti), render(toks, base, e0), e0, false)
+		// the same text read from a file through the compiler's parse entry point, with LF and with
+		// CR LF line ends between the tokens
+		parseViaFile = true
+		e1 := append([]expNode{}, exp...)
+		do(fmt.Sprintf("file:%d", ti), render(toks, base, e1), e1, true)
+		crlf := make([]string, len(base))
+		for i, b := range base {
+			crlf[i] = strings.ReplaceAll(b, "\n", "\r\n")
+		}
+		e2 := append([]expNode{}, exp...)
+		do(fmt.Sprintf("file-crlf:%d", ti), render(toks, crlf, e2), e2, true)
+		parseViaFile = false
 		twoAtATime := !c.Quick() && len(toks) < 60
 		for b := 1; b < len(toks); b++ {
 			tvs := trivia
